@@ -1,12 +1,67 @@
 (** C15 — reverse move generation is complete and consistent with forward moves.
-    Only statements; every proof is [exact <lemma>]. *)
+    Only statements; every proof is [exact <lemma>] into RevGen/*.v.
+    Model: RevGen/RevGen.v (RevMoveGen::genMoves with its lambdas, genMovesNoUndoInfo, knownInvalid),
+    on top of the shared chess model Chess/{Position,BitBoard,MoveGen,Fen}.v; tied to
+    lib/texelutillib/revmovegen.{hpp,cpp} by the correspondence check (props/c15.py).
+    [zk] ranges over arbitrary Zobrist tables whose EMPTY row is zero.
+    Q = [successor zk p m] = fixupEPSquare (makeMove p m);  [withClock ui 0] = the undo information
+    with the half-move clock field set to 0, the only form RevMoveGen reports. *)
 From Coq Require Import ZArith NArith List Bool.
-From Texel Require Import Chess.Types Chess.Position Chess.BitBoard Chess.MoveGen Chess.Fen
-  RevGen.RevGen RevGen.RevFacts.
+From Texel Require Import Chess.Types Chess.Position Chess.PositionSpec Chess.PositionProofs Chess.PositionProofs2
+  Chess.BitBoard Chess.MoveGen Chess.MoveGenWF Chess.Fen Chess.Spec
+  RevGen.RevGen RevGen.RevFacts RevGen.RevAbs RevGen.RevRestore RevGen.RevValid RevGen.RevCand.
 Import ListNotations.
 Local Open Scope N_scope.
 
+(** every reported un-move carries clock 0 and a move of the raw reverse move list *)
 Theorem C15_clock_zero : forall zk pos incl um,
   In um (genMoves zk pos incl) -> u_halfMoveClock (um_ui um) = 0%Z /\ In (um_move um) (revMoveList pos).
 Proof. exact (fun zk pos incl um H => candidates_clock pos incl um (proj1 (proj1 (genMoves_In zk pos incl um) H))). Qed.
 Print Assumptions C15_clock_zero.
+
+(** makeMove on the four fields RevMoveGen talks about (board, side, castle mask, e.p. square) *)
+Theorem C15_makeMove_fields : forall zk p m,
+  Consistent zk p -> mfrom m < 64 -> abs (fst (makeMove zk p m)) = makeA (abs p) m.
+Proof. exact makeMove_abs. Qed.
+Print Assumptions C15_makeMove_fields.
+
+(** the undo information of (P, m) with clock 0 takes Q back to P with clock 0 *)
+Theorem C15_restore : forall zk, emptyKeysZero zk -> forall p m,
+  Consistent zk p -> moveOk p m = true ->
+  let q := successor zk p m in
+  let ui0 := withClock (snd (makeMove zk p m)) 0 in
+  Consistent zk q /\ Consistent zk (unMakeMove zk q m ui0) /\
+  normEmpty (unMakeMove zk q m ui0) = normEmpty (set_halfMoveClock p 0).
+Proof. exact restore_clock0. Qed.
+Print Assumptions C15_restore.
+
+(** ... and that predecessor is not rejected by knownInvalid (piece counts, king capture, both e.p. fix-ups) *)
+Theorem C15_restored_not_rejected : forall zk, emptyKeysZero zk -> forall p m,
+  WFrev zk p -> moveOk p m = true -> pushOk (abs p) m ->
+  knownInvalid zk (successor zk p m) m (withClock (snd (makeMove zk p m)) 0) = false.
+Proof. exact restored_not_knownInvalid. Qed.
+Print Assumptions C15_restored_not_rejected.
+
+(** the alternatives enumerated for a reverse move (captured piece, castle-mask subsets, e.p. files)
+    contain the undo information of the predecessor — for every kind of move, castling, en passant
+    and promotions included *)
+Theorem C15_undo_alternatives : forall zk p m incl,
+  WFrev zk p -> MoveFacts p m ->
+  (incl = true \/ epSquare p = (-1)%Z \/
+   (isPawnPiece (getPiece p (mfrom m)) = true /\ Z.of_N (mto m) = epSquare p)) ->
+  In (mkUnMove m (withClock (snd (makeMove zk p m)) 0)) (candidatesFor (successor zk p m) incl m).
+Proof. exact (fun zk p m incl H1 H2 H3 => candidate_of_raw zk p m H1 H2 incl H3). Qed.
+Print Assumptions C15_undo_alternatives.
+
+(** completeness of genMoves for every kind of move, given that genMovesNoUndoInfo lists the move *)
+Theorem C15_complete_given_raw : forall zk, emptyKeysZero zk -> forall p m incl,
+  WFrev zk p -> MoveFacts p m ->
+  (incl = true \/ epSquare p = (-1)%Z \/
+   (isPawnPiece (getPiece p (mfrom m)) = true /\ Z.of_N (mto m) = epSquare p)) ->
+  let q := successor zk p m in
+  let ui0 := withClock (snd (makeMove zk p m)) 0 in
+  In m (revMoveList q) ->
+  In (mkUnMove m ui0) (genMoves zk q incl) /\
+  normEmpty (unMakeMove zk q m ui0) = normEmpty (set_halfMoveClock p 0).
+Proof. exact complete_given_raw. Qed.
+Print Assumptions C15_complete_given_raw.
